@@ -215,6 +215,50 @@ func runC11(r *Report) {
 		})
 	}
 
+	// ---- R-C11-1 identity is stamped AFTER the body is decoded ----------------------------------------
+	// a struct that json.Unmarshal fills from the request body must not already hold the actor's
+	// identity: a body that carries the field's JSON key overwrites it. (Decoding first and stamping
+	// afterwards, or decoding into a separate request type, are both fine.)
+	for _, pk := range []string{cmdPkg, authPkg} {
+		for _, f := range r.P.FuncsIn(pk) {
+			for _, um := range Calls(f, false, "json:Unmarshal") {
+				target := stripValue(Arg(um, 1))
+				// objects reachable from the decode target: the target cell and what was stored in its
+				// pointer fields before the call
+				objs := map[ssa.Value]bool{target: true}
+				for round := 0; round < 3; round++ {
+					Instrs(f, func(in ssa.Instruction) {
+						st, ok := in.(*ssa.Store)
+						if !ok {
+							return
+						}
+						if fa, isFA := st.Addr.(*ssa.FieldAddr); isFA && objs[stripValue(fa.X)] {
+							if _, isPtr := st.Val.Type().Underlying().(*types.Pointer); isPtr {
+								objs[stripValue(st.Val)] = true
+							}
+						}
+					})
+				}
+				Instrs(f, func(in ssa.Instruction) {
+					st, ok := in.(*ssa.Store)
+					if !ok {
+						return
+					}
+					fa, isFA := st.Addr.(*ssa.FieldAddr)
+					if !isFA || !objs[stripValue(fa.X)] {
+						return
+					}
+					o := originSummary(st.Val)
+					if !strings.Contains(o, "CommandContext.ClientID") && !strings.Contains(o, "GetClientID") {
+						return
+					}
+					before := st.Block() == um.Block() && Before(st, um.(ssa.Instruction)) || (st.Block() != um.Block() && CanReach(st.Block(), um.Block()))
+					r.Ob("R-C11-1", st.Pos(), !before, "the actor's identity ("+o+") is stored into "+fieldDesc(fa.X.Type(), fa.Field)+" of the object the request body is then decoded into: a body carrying that field's JSON key overrides the authenticated sender", r.P.FuncName(f), "identity-stamped-after-decode:"+fieldDesc(fa.X.Type(), fa.Field))
+				})
+			}
+		}
+	}
+
 	// ---- discover handlers ------------------------------------------------------------------------
 	var handlers []*ssa.Function
 	for _, pk := range []string{cmdPkg, authPkg} {
